@@ -24,8 +24,8 @@ import (
 	"fmt"
 	"io"
 	"math/rand"
-	"net/http"
 	"os"
+	"runtime/debug"
 	"strings"
 	"sync"
 	"sync/atomic"
@@ -101,7 +101,7 @@ func (h *history) witness() interface{} {
 
 // ------------------------------------------------------------------ cluster helpers
 
-var faultHTTP = &http.Client{Timeout: 20 * time.Second, Transport: &http.Transport{DisableKeepAlives: true}}
+var faultHTTP = newHTTP(20 * time.Second)
 
 // leader returns the index of the meta node that the running nodes name as
 // leader (-1: none / no agreement).
@@ -171,7 +171,7 @@ func (h *history) start(is ...int) bool {
 	}
 	for _, i := range is {
 		var err error
-		for try := 0; try < 6; try++ {
+		for try := 0; try < 40; try++ {
 			if err = h.cl.WaitMeta(i, 120*time.Second); err == nil {
 				break
 			}
@@ -181,10 +181,10 @@ func (h *history) start(is ...int) bool {
 			if !strings.Contains(err.Error(), "address already in use") {
 				break
 			}
-			// the node's fixed port is momentarily the source port of some
-			// other connection on this machine: try again
+			// the node's fixed port is held by a TIME_WAIT socket of some other
+			// connection on this machine (for up to a minute): try again
 			r.Count("d_restart_retries_port_in_use", 1)
-			time.Sleep(time.Second)
+			time.Sleep(2 * time.Second)
 			if e := h.cl.StartMeta(i); e != nil {
 				err = e
 				break
@@ -609,7 +609,14 @@ func (h *history) sampler() {
 func startCluster(dir string, nData int) (cl *cluster.Cluster, err error) {
 	defer func() {
 		if e := recover(); e != nil {
-			cl, err = nil, fmt.Errorf("start failed and the clean-up of the half-started cluster panicked: %v", e)
+			st := string(debug.Stack())
+			where := ""
+			for _, l := range strings.Split(st, "\n") {
+				if strings.Contains(l, "internal/cluster/cluster.go:") {
+					where += " " + strings.TrimSpace(l[strings.LastIndex(l, "/")+1:])
+				}
+			}
+			cl, err = nil, fmt.Errorf("start failed and the clean-up of the half-started cluster panicked: %v (at%s)", e, where)
 		}
 	}()
 	return cluster.Start(dir, 3, nData, cluster.Options{})
@@ -642,6 +649,13 @@ func faultHistory(caseID string, seed int64) {
 	r.Begin(caseID, map[string]interface{}{"case_seed": seed, "data_nodes": nData, "ops": nOps})
 	r.Eval(1)
 	cl, err := startCluster(dir, nData)
+	for try := 0; err != nil && try < 3; try++ {
+		// ports picked for the servers were taken before they could bind: new ports
+		r.Count("d_cluster_start_retries", 1)
+		os.RemoveAll(dir)
+		os.MkdirAll(dir, 0o755)
+		cl, err = startCluster(dir, nData)
+	}
 	if err != nil {
 		r.Inconclusive(fmt.Sprintf("(d) %s: cluster did not start: %v", caseID, err))
 		return
@@ -811,7 +825,7 @@ func faultHistory(caseID string, seed int64) {
 		metas, caches = metas[:0], caches[:0]
 		settled := true
 		for _, m := range cl.Metas {
-			d, err := fetchData(m.HTTPAddr, 20*time.Second)
+			d, err := fetchData(faultHTTP, m.HTTPAddr)
 			if err != nil {
 				settled = false
 				break
